@@ -8,6 +8,8 @@
 
 #define ALN_SEQSEQ_IMPORT
 #include "aln_seqseq.h"
+
+#include "kalign_verif.h"
 #define MAX(a, b) (a > b ? a : b)
 #define MAX3(a,b,c) MAX(MAX(a,b),c)
 
@@ -107,6 +109,7 @@ int aln_seqseq_foward(struct aln_mem* m)
                         s[j].gb = MAX(s[j].gb,ca)-tgpe;
                 }
         }
+        KV_HOOK(if(m->kv_par) kv_hfwd(m));
         return OK;
 }
 
@@ -219,12 +222,14 @@ int aln_seqseq_backward(struct aln_mem* m)
                         s[j].gb = MAX(s[j].gb,ca)-tgpe;
                 }
         }
+        KV_HOOK(if(m->kv_par) kv_hbwd(m));
         return OK;
 }
 
 
 int aln_seqseq_meetup(struct aln_mem* m,int old_cor[],int* meet,int* t,float* score)
 {
+        KV_HOOK(if(m->kv_par) kv_hmeet(m, old_cor));
         struct states* f = m->f;
         struct states* b = m->b;
 
